@@ -285,6 +285,43 @@ def case_shape(rec, shape, variants):
         except Exception as e:
             rec.violation('shape:boc-raise', f'shape {shape}: BoC round trip raised {exc_name(e)}: {e}', 'case_shape', key_args)
             return
+    # a bag that STORES hashes / depths with its cells (d1 bit 16): with correct stored values, and with each cell's stored
+    # hash resp. depth replaced by a wrong one: whatever the parser does with stored values, a cell it returns reports the
+    # hash and depth of its CONTENT (raising is fine too - the property is about the cells one gets)
+    from ..ref import boc as RB
+    order = RB.topo([root])
+    for k in range(-1, len(order)):
+        for what in (('hash', 'depth') if k >= 0 else ('none',)):
+            def sp(i, hs, ds, k=k, what=what):
+                if i == k and what == 'hash':
+                    hs = [bytes(x ^ 0x5a for x in hs[0])] + hs[1:]
+                if i == k and what == 'depth':
+                    ds = [ds[0] + 1] + ds[1:]
+                return hs, ds
+            data = RB.encode([root], with_hashes=lambda c: True, stored_patch=sp)
+            rec.trans()
+            try:
+                back = Cell.one_from_boc(data)
+            except Exception as e:
+                if k < 0:
+                    rec.violation('shape:boc-stored-raise', f'shape {shape}: a bag storing (correct) hashes with its cells is rejected: {exc_name(e)}: {e}', 'case_shape', key_args)
+                    return
+                rec.covered('stored:wrong-rejected')
+                continue
+            rec.covered('stored:correct' if k < 0 else 'stored:wrong-ignored')
+            stack, seen = [(back, root)], set()
+            while stack:
+                lc, rc = stack.pop()
+                if id(lc) in seen:
+                    continue
+                seen.add(id(lc))
+                bad = _compare(lc, rc)
+                rec.trace()
+                if bad:
+                    rec.violation('shape:boc-stored:' + bad[0].split()[0], f'shape {shape} variants {variants}: bag storing hashes'
+                                  f'{"" if k < 0 else f" (stored {what} of cell {k} is not the real one)"}: a returned cell reports ' + '; '.join(bad[:2]), 'case_shape', key_args)
+                    return
+                stack.extend(zip(lc.refs, rc.refs))
     if any(len(set(s)) < len(s) for s in shape) or sum(1 for s in shape for c in s) > len(shape) - 1:
         rec.covered('shared-child')
     rec.state(('shape', shape, variants))
